@@ -24,7 +24,9 @@ Only `alpha = 1`, `beta = 0` is modelled: these are the only values `matmul.h` p
 Buffers are functions `Int → α` relative to the pointer handed to the routine.
 
 Core Lean only (linked into the `adept_model` driver).  The spy BLAS of the harness
-(harness/spy_blas.cpp) is transcribed from the same reference text.
+(harness/spy_blas.cpp) is transcribed from the same reference text.  The element type is the parameter `α`:
+the d-prefix and the s-prefix entry points (double / float; `Array<2,float>` operands reach the latter) share
+one contract, as they share one template in the spy; the check exercises both.
 -/
 namespace Adept.Blas
 
